@@ -33,9 +33,9 @@ type PStep struct {
 
 // CStep is the behaviour of the consumer around one receive.
 type CStep struct {
-	Delay    int64 `json:"delay_ns"` // pause before the receive
-	Hold     int64 `json:"hold_ns"`  // time the slice is kept before release (no-copy) / before the next step
-	Scribble bool  `json:"scribble"` // copy mode: overwrite the received slice with garbage after the hold
+	Delay    int64 `json:"delay_ns"`         // pause before the receive
+	Hold     int64 `json:"hold_ns"`          // time the slice is kept before release (no-copy) / before the next step
+	Scribble bool  `json:"scribble"`         // copy mode: overwrite the received slice with garbage after the hold
 	Append   int   `json:"append,omitempty"` // copy mode: append that many garbage elements to the received slice after the hold
 }
 
@@ -73,6 +73,9 @@ type Script struct {
 	SharedLayout int `json:"shared_array_layout"`
 	// unite: empty input slices are sent as nil instead of as zero-length slices
 	NilEmpty bool `json:"empty_slices_are_nil"`
+	// PreStart: the producer is started (and has filled the input or is blocked in its first
+	// write) before the discipline is created
+	PreStart bool `json:"producer_started_before_creation,omitempty"`
 }
 
 // Out is one delivered slice as observed.
@@ -221,12 +224,7 @@ func execute1(t *testing.T, s Script, leakScan bool, budget time.Duration) Trace
 		var mu sync.Mutex
 		in := make(chan int, s.InCap)
 		ins := make(chan []int, s.InCap)
-		d, err := mk(s, in, ins)
-		if err != nil {
-			tr.NewErr = err.Error()
-			return
-		}
-		quit := make(chan struct{})     // ends harness helpers
+		quit := make(chan struct{})      // ends harness helpers
 		writeTrig := make(chan struct{}) // closed when the producer's write #Stop.AfterWrite has completed
 		var trigOnce sync.Once
 		fireTrig := func() { trigOnce.Do(func() { close(writeTrig) }) }
@@ -234,127 +232,145 @@ func execute1(t *testing.T, s Script, leakScan bool, budget time.Duration) Trace
 		var helpers sync.WaitGroup
 
 		// producer
-		helpers.Add(1)
-		go func() {
-			defer helpers.Done()
-			next := 0
-			total := 0
-			for _, st := range s.Prod {
-				total += st.Len
-			}
-			arr := make([]int, total)
-			if s.SharedLayout == 3 {
-				arr = make([]int, windowBlock(s))
-			}
-			// offset of every input slice inside the shared array
-			order := make([]int, len(s.Prod))
-			for i := range order {
-				order[i] = i
-			}
-			switch s.SharedLayout {
-			case 1:
-				for i := 0; i+1 < len(order); i += 2 {
-					order[i], order[i+1] = order[i+1], order[i]
+		startProducer := func() {
+			helpers.Add(1)
+			go func() {
+				defer helpers.Done()
+				next := 0
+				total := 0
+				for _, st := range s.Prod {
+					total += st.Len
 				}
-			case 2:
-				if len(order) > 1 {
-					order = append(order[1:], order[0])
-				}
-			}
-			offs := make([]int, len(s.Prod))
-			pos := 0
-			for _, si := range order {
-				offs[si] = pos
-				pos += s.Prod[si].Len
-			}
-			// the producer has all its data in place before it starts sending
-			v := 0
-			for si, st := range s.Prod {
+				arr := make([]int, total)
 				if s.SharedLayout == 3 {
-					break
+					arr = make([]int, windowBlock(s))
 				}
-				for i := 0; i < st.Len; i++ {
-					arr[offs[si]+i] = v
-					v++
+				// offset of every input slice inside the shared array
+				order := make([]int, len(s.Prod))
+				for i := range order {
+					order[i] = i
 				}
-			}
-			if s.SharedLayout == 3 {
-				// a constant block the producer only reads; its input slices are overlapping windows
-				// of it (the same memory is sent again and again)
-				for i := range arr {
-					arr[i] = i
-				}
-				for si := range s.Prod {
-					offs[si] = windowOffset(s, si)
-				}
-			}
-			for si, st := range s.Prod {
-				select {
-				case <-time.After(time.Duration(st.Gap)):
-				case <-quit:
-					return
-				}
-				ws := now()
-				if s.Kind == KindV2Unite {
-					sl := make([]int, st.Len)
-					for i := range sl {
-						sl[i] = next + i
+				switch s.SharedLayout {
+				case 1:
+					for i := 0; i+1 < len(order); i += 2 {
+						order[i], order[i+1] = order[i+1], order[i]
 					}
-					if s.SharedArray {
-						sl = arr[offs[si] : offs[si]+st.Len]
+				case 2:
+					if len(order) > 1 {
+						order = append(order[1:], order[0])
 					}
-					if s.NilEmpty && st.Len == 0 {
-						sl = nil
+				}
+				offs := make([]int, len(s.Prod))
+				pos := 0
+				for _, si := range order {
+					offs[si] = pos
+					pos += s.Prod[si].Len
+				}
+				// the producer has all its data in place before it starts sending
+				v := 0
+				for si, st := range s.Prod {
+					if s.SharedLayout == 3 {
+						break
 					}
+					for i := 0; i < st.Len; i++ {
+						arr[offs[si]+i] = v
+						v++
+					}
+				}
+				if s.SharedLayout == 3 {
+					// a constant block the producer only reads; its input slices are overlapping windows
+					// of it (the same memory is sent again and again)
+					for i := range arr {
+						arr[i] = i
+					}
+					for si := range s.Prod {
+						offs[si] = windowOffset(s, si)
+					}
+				}
+				for si, st := range s.Prod {
 					select {
-					case ins <- sl:
+					case <-time.After(time.Duration(st.Gap)):
 					case <-quit:
 						return
 					}
-					wd := now()
-					mu.Lock()
-					tr.InLens = append(tr.InLens, st.Len)
-					for range sl {
+					ws := now()
+					if s.Kind == KindV2Unite {
+						sl := make([]int, st.Len)
+						for i := range sl {
+							sl[i] = next + i
+						}
+						if s.SharedArray {
+							sl = arr[offs[si] : offs[si]+st.Len]
+						}
+						if s.NilEmpty && st.Len == 0 {
+							sl = nil
+						}
+						select {
+						case ins <- sl:
+						case <-quit:
+							return
+						}
+						wd := now()
+						mu.Lock()
+						tr.InLens = append(tr.InLens, st.Len)
+						for range sl {
+							tr.WStart = append(tr.WStart, ws)
+							tr.WDone = append(tr.WDone, wd)
+							tr.SliceOf = append(tr.SliceOf, si)
+						}
+						mu.Unlock()
+						next += st.Len
+					} else {
+						select {
+						case in <- next:
+						case <-quit:
+							return
+						}
+						wd := now()
+						if s.Stop != nil && s.Stop.AfterWrite > 0 && next+1 == s.Stop.AfterWrite {
+							fireTrig()
+						}
+						mu.Lock()
+						tr.InLens = append(tr.InLens, 1)
 						tr.WStart = append(tr.WStart, ws)
 						tr.WDone = append(tr.WDone, wd)
 						tr.SliceOf = append(tr.SliceOf, si)
+						mu.Unlock()
+						next++
 					}
-					mu.Unlock()
-					next += st.Len
-				} else {
-					select {
-					case in <- next:
-					case <-quit:
-						return
-					}
-					wd := now()
-					if s.Stop != nil && s.Stop.AfterWrite > 0 && next+1 == s.Stop.AfterWrite {
-						fireTrig()
-					}
-					mu.Lock()
-					tr.InLens = append(tr.InLens, 1)
-					tr.WStart = append(tr.WStart, ws)
-					tr.WDone = append(tr.WDone, wd)
-					tr.SliceOf = append(tr.SliceOf, si)
-					mu.Unlock()
-					next++
 				}
-			}
-			fireTrig() // a plan that asked for more writes than the script has: stop at the end of production
-			if s.NoClose && s.Stop != nil && s.Stop.AfterRecv < 0 && s.Kind == KindV1Join {
-				return
-			}
-			select {
-			case <-time.After(time.Duration(s.CloseGap)):
-			case <-quit:
-				return
-			}
-			mu.Lock()
-			tr.CloseAt = now()
-			mu.Unlock()
-			close(in)
-			close(ins)
-		}()
+				fireTrig() // a plan that asked for more writes than the script has: stop at the end of production
+				if s.NoClose && s.Stop != nil && s.Stop.AfterRecv < 0 && s.Kind == KindV1Join {
+					return
+				}
+				select {
+				case <-time.After(time.Duration(s.CloseGap)):
+				case <-quit:
+					return
+				}
+				mu.Lock()
+				tr.CloseAt = now()
+				mu.Unlock()
+				close(in)
+				close(ins)
+			}()
+		}
+		if s.PreStart {
+			// the producer has written what fits into the input, or is blocked in its first write,
+			// before the discipline exists
+			startProducer()
+			bubble.Wait()
+		}
+		d, err := mk(s, in, ins)
+		if err != nil {
+			tr.NewErr = err.Error()
+			close(quit)
+			helpers.Wait()
+			return
+		}
+		if !s.PreStart {
+			startProducer()
+		}
 
 		var stopOnce sync.Once
 		doStop := func() {
